@@ -31,6 +31,13 @@ def main():
         p = subprocess.run([os.path.join(HERE, 'tools', 'mutant.sh'), k['property'], tier, 'patch', patch],
                            stdout=subprocess.PIPE, stderr=subprocess.STDOUT, text=True, cwd=HERE)
         keys = sorted(set(re.findall(r'^\s+key=(\S+)', p.stdout, re.M)))
+        # keep the first replay file as a worked example (replays/examples/): it holds on the current tree and fails on the patched one
+        mrep = re.search(r'^VIOLATION property=\S+ replay=(\S+)', p.stdout, re.M)
+        if mrep and os.path.exists(mrep.group(1)):
+            ex = os.path.join(HERE, 'replays', 'examples')
+            os.makedirs(ex, exist_ok=True)
+            import shutil
+            shutil.copy(mrep.group(1), os.path.join(ex, '%s-unfix-%s.json' % (k['property'], k['commit'])))
         out['unfix-%s' % k['commit']] = {'property': k['property'], 'reintroduces': k['what'][:160], 'check': '%s:%s' % (k['property'], tier),
                                          'exit': p.returncode, 'detected': p.returncode == 1, 'violation_keys': keys[:6]}
         print('unfix-%s %s %s -> exit %d %s' % (k['commit'], k['property'], tier, p.returncode, keys[:3]))
